@@ -49,7 +49,11 @@ MULTITASK = ["smt", "active_mt", "uts"]
 # configuration variants of a routine (same entry point): MR.Q learning from step 0 (sampling while no admissible
 # sub-trajectory start exists yet) and the active scheduler with undiscounted UCB and constant rewards (exact ties)
 # MR.Q with a buffer that wraps around during the run; A2C with a budget that is no multiple of one rollout
-VARIANTS = {"mrq@ls0": "mrq", "active_mt@ties": "active_mt", "mrq@full": "mrq", "a2c@partial": "a2c"}
+# td3 / sac on an environment whose Box action space is float64 (the routines build float32 views of it)
+# MR.Q continued on a replay buffer that already holds more than 100 000 transitions (a non-initial state far beyond what
+# the exhaustive part can reach; one deterministic deep state)
+VARIANTS = {"mrq@ls0": "mrq", "active_mt@ties": "active_mt", "mrq@full": "mrq", "a2c@partial": "a2c", "td3@f64box": "td3", "sac@f64box": "sac",
+            "mrq@prefilled": "mrq"}
 POLLUTABLE = {"ddpg", "td3", "td3_lap", "sac", "td7", "mrq", "pets"}  # continuous Box actions: an alt-bounds run exists
 ROUTINES = OFF_POLICY + EPISODIC + VECTOR + TABULAR + ["cmaes"] + MULTITASK + list(VARIANTS)
 
@@ -58,10 +62,10 @@ ENTRY.update(ac="train_ac", ddqn_per="train_ddqn_per")
 
 FAMILIES = {
     "dqn-family": ["dqn", "nature_dqn", "ddqn", "ddqn_per"],
-    "ddpg-td3": ["ddpg", "td3", "td3_lap"],
-    "sac": ["sac"],
+    "ddpg-td3": ["ddpg", "td3", "td3_lap", "td3@f64box"],
+    "sac": ["sac", "sac@f64box"],
     "td7": ["td7"],
-    "mrq": ["mrq", "mrq@ls0", "mrq@full"],
+    "mrq": ["mrq", "mrq@ls0", "mrq@full", "mrq@prefilled"],
     "pets": ["pets"],
     "policy-gradient": ["reinforce", "ac"],
     "a2c-ppo": ["a2c", "ppo", "a2c@partial"],
@@ -116,9 +120,9 @@ def _reward(env, lvl):
     return float(env.t) + 0.25 * env.last_s
 
 
-def make_env(script, discrete=False, discrete_obs=0, horizon=None, low=(-1.0, 0.0), high=(2.0, 3.0)):
+def make_env(script, discrete=False, discrete_obs=0, horizon=None, low=(-1.0, 0.0), high=(2.0, 3.0), act_dtype=np.float32):
     return ActEnv(script, discrete=discrete, discrete_obs=discrete_obs, horizon=horizon if horizon is not None else len(script),
-                  low=low, high=high, reward_fn=_reward)
+                  low=low, high=high, reward_fn=_reward, act_dtype=act_dtype)
 
 
 # -- logger ---------------------------------------------------------------------------------------
@@ -346,6 +350,19 @@ def _guard(fn):
 # -- the 11 step-granular off-policy routines -----------------------------------------------------
 
 
+def _prefilled_subtrajectory_buffer(n):
+    """A SubtrajectoryReplayBufferPER holding n synthetic transitions (50-step truncated episodes, deterministic values)."""
+    from rl_blox.blox import replay_buffer as rbm
+
+    rb = rbm.SubtrajectoryReplayBufferPER(n + 400, horizon=2)
+    for i in range(n):
+        k = i % 50
+        rb.add_sample(observation=np.array([0.1 * (i % 7), 0.1 * k], np.float32), action=np.array([0.25 * (i % 5) - 0.5, 1.0 + 0.125 * (i % 3)], np.float32),
+                      reward=0.1 * ((i * 37) % 11 - 5), next_observation=np.array([0.1 * ((i + 1) % 7), 0.1 * (k + 1)], np.float32),
+                      terminated=False, truncated=k == 49)
+    return rb
+
+
 def run_off_policy(name, sid, seed, net_seed, alt_bounds=False):
     variant, name = name, VARIANTS.get(name, name)
     script = STEP_SCRIPTS[sid]
@@ -354,6 +371,8 @@ def run_off_policy(name, sid, seed, net_seed, alt_bounds=False):
         env = make_env(script, horizon=T + 1, low=(-3.0,) if alt_bounds else (-1.0,), high=(5.0,) if alt_bounds else (2.0,))
     elif alt_bounds and name not in drivers.DISCRETE:
         env = make_env(script, horizon=T + 1, low=(-3.0, -2.0), high=(5.0, 7.0))
+    elif variant.endswith("@f64box"):
+        env = make_env(script, horizon=T + 1, act_dtype=np.float64)
     else:
         env = make_env(script, discrete=name in drivers.DISCRETE, horizon=T + 1)
     lg = make_logger()
@@ -361,6 +380,8 @@ def run_off_policy(name, sid, seed, net_seed, alt_bounds=False):
                buffer_size=6, extra={"logger": lg}, width=3)
     if name == "mrq":
         cfg.update(learning_starts=0 if variant == "mrq@ls0" else 4, buffer_size=7 if variant == "mrq@full" else 12)
+    if variant == "mrq@prefilled":
+        cfg.update(replay_buffer=_prefilled_subtrajectory_buffer(100_200), learning_starts=2)
     if name == "pets":
         cfg.update(learning_starts=3)
     if name == "dqn":
